@@ -116,6 +116,32 @@ def instrument(cls, gamma_names):
     return Instrumented
 
 
+class SharedList(list):
+    """The outcome list several callers pass (SharedArgs.tla): a plain list to the library (isinstance list, same values), whose
+    every mutating operation is logged as an `argwrite` event and is a yield point - the design has no action that writes it."""
+
+    def _w(self, what):
+        sch = getattr(_tls, "sched", None)
+        if sch is not None:
+            th = _tls.th
+            sch.yield_point(th)
+            sch.record(th, "argwrite", "outcome_list", what)
+
+
+def _logged(name):
+    base = getattr(list, name)
+
+    def method(self, *a, **k):
+        self._w(name)
+        return base(self, *a, **k)
+    method.__name__ = name
+    return method
+
+
+for _n in ("__setitem__", "__delitem__", "__iadd__", "__imul__", "append", "extend", "insert", "pop", "remove", "clear", "sort", "reverse"):
+    setattr(SharedList, _n, _logged(_n))
+
+
 def _lib_tracer(sch, th, counter=None):
     """sys.settrace hook: every Python function call inside the library is a yield point (no event is logged)."""
     def tracer(frame, event, arg):
@@ -161,6 +187,8 @@ def run_execution(sess, xid, kind, params, gname, calls, plan, thread_log, fine=
         if o is not None:
             for sel in ("ranks", "scores"):
                 if sel in passed[th] and sel in passed[o] and passed[th][sel] == passed[o][sel]:
+                    if not isinstance(passed[o][sel], SharedList):
+                        passed[o][sel] = SharedList(passed[o][sel])
                     passed[th][sel] = passed[o][sel]
 
     def body(th):
